@@ -159,7 +159,11 @@ def _build(desc, ctx):
             if f.get("deprecated"):
                 fk["deprecated"] = f["deprecated"]      # True, or the name of the replacing field
             for a in ("no_input", "no_output"):
-                if f.get(a):
+                if f.get(a) == "@never":
+                    # a callable flag, decided per value; this one never fires on a generated value, so what remains
+                    # of the field's behaviour is its own `mode`
+                    fk[a] = (lambda v: isinstance(v, str) and v == "\x00never\x00")
+                elif f.get(a):
                     fk[a] = f[a]
             if f.get("deps"):
                 fk["dependencies"] = list(f["deps"])
@@ -1071,6 +1075,33 @@ def gen_data(rng, depth=1, nested=False, cls_mode="rand", pool=None, name=None):
         # ('preserve' keeps the raw value by design and is not generated.)
         opts["invalid_values"] = "exclude"
     fields = [gen_field(rng, ATT[i], depth, mode, pool) for i in range(n)]
+    # a CALLABLE no_input / no_output on a field with a mode of its own, in a class whose mode lies outside it: the
+    # static view (always_no_input / always_no_output) must still apply the field's mode (outside the Lean fragment:
+    # the driver answers `unmodelled`; the oracle compares the documents with the probes)
+    if rng.random() < 0.12:
+        cands = [f for f in fields if not f.get("prop")]
+        if cands:
+            f = rng.choice(cands)
+            fm = rng.choice(["r", "w", "a", "rw", "ra", "wa"])
+            for k in ("readonly", "writeonly", "final"):
+                f.pop(k, None)
+            f["mode"] = fm
+            flag = rng.choice(["no_input", "no_input", "no_output"])
+            f[flag] = "@never"
+            if flag == "no_output":
+                # known finding `callable-nooutput-mode`: with a default the output schema would require a field that
+                # is never published (always_no_output returns early on a callable); the corpus holds the witness
+                f.pop("default", None)
+                f.pop("defer_default", None)
+            other = "no_output" if flag == "no_input" else "no_input"
+            if isinstance(f.get(other), str) and not set(f[other]) <= set(fm):
+                f.pop(other)
+            if isinstance(f.get("required"), str) and not set(f["required"]) <= set(fm):
+                f["required"] = False
+                f.pop("default", None)
+                f.pop("defer_default", None)
+            outside = [c for c in "rwa" if c not in fm]
+            opts["mode"] = rng.choice(outside + [None]) if rng.random() < 0.8 else opts["mode"]
     # Field(deprecated='<name of the field that replaces it>')
     if len(fields) >= 2 and rng.random() < 0.2:
         i, j = rng.sample(range(len(fields)), 2)
@@ -1908,6 +1939,10 @@ class C13(Check):
         if case.get("kind") == "session":
             if any(isinstance(x, dict) and "declaration_rejected" in x for x in io.get("steps", [])):
                 return None     # the registries of model and library are no longer in step
+            if any(isinstance(x, dict) and "unmodelled" in x for x in mo.get("steps", [])):
+                # a declaration outside the model (e.g. a callable no_input) has entered the shared registry: the
+                # model's definitions for it mean nothing; the oracle (spec) still judges every document of the session
+                return None
             for i, (st, sio, smo) in enumerate(zip(case["steps"], io.get("steps", []), mo.get("steps", []))):
                 d = self.compare(st, sio, smo)
                 if d:
@@ -2104,6 +2139,11 @@ class C13(Check):
         return None
 
     def classify(self, case, io, why):
+        if case.get("kind") != "session" and why.startswith("outputs-validate") and case["ty"]["k"] == "data":
+            cm = case["ty"]["opts"].get("mode")
+            for f in case["ty"]["fields"]:
+                if f.get("no_output") == "@never" and f.get("default") and f.get("mode") and cm and cm not in f["mode"]:
+                    return "callable-nooutput-mode"
         if case.get("kind") == "session":
             m = re.match(r"step (\d+): (.*)", why, re.S)
             if not m:
